@@ -1,6 +1,7 @@
 From PV.Model Require Import Machine Mapping Views Pattern Exec ScanView.
-From PV.Spec Require Import PatSyntax PatSem.
+From PV.Spec Require Import PatSyntax PatSem PatRead.
 Require Import ExtrOcamlBasic.
 Extraction Language OCaml.
 Extraction "../ocaml/gen/pattern_model.ml" parse save_len view_exec show compile den_top apply_log scan_of_view
-  range_skip_in_last_alternative_with_suffix untrimmed noalt trims_only_braces.
+  range_skip_in_last_alternative_with_suffix untrimmed noalt trims_only_braces
+  read_pat wfb accepted_ok documented.
